@@ -53,7 +53,13 @@ struct Net {
     /// message id -> k
     ids: HashMap<MessageId, i64>,
     topics: Vec<IdentTopic>,
+    /// RPCs delivered in this run
+    delivered: usize,
 }
+
+/// a healthy run of 12 nodes needs a few thousand deliveries; a network that does not quiesce
+/// (e.g. a message circulating forever) is cut off here and reported as `overrun`
+const MAX_DELIVERIES: usize = 30_000;
 
 fn payload_k(data: &[u8]) -> i64 {
     std::str::from_utf8(data).ok().and_then(|s| s.strip_prefix('m')).and_then(|s| s.parse().ok()).unwrap_or(-1)
@@ -125,6 +131,10 @@ impl Net {
 
     /// One RPC travels a -> b. None if the link is empty.
     fn deliver(&mut self, a: usize, b: usize) -> Option<Value> {
+        if self.delivered >= MAX_DELIVERIES {
+            return None;
+        }
+        self.delivered += 1;
         let rpc = self.links.get_mut(&(a, b))?.pop_front()?;
         let msgs: Vec<i64> = rpc.publish.iter().map(|m| payload_k(m.data.as_deref().unwrap_or(&[]))).collect();
         let mut iwant = vec![];
@@ -204,7 +214,7 @@ fn run(out: &mut Out, sched: &Value) {
             }
         })
         .collect();
-    let mut net = Net { nodes, links: BTreeMap::new(), ids: HashMap::new(), topics };
+    let mut net = Net { nodes, links: BTreeMap::new(), ids: HashMap::new(), topics, delivered: 0 };
     out.reset_with(json!({"n": n, "nt": nt}), sched);
     let ops = sched["ops"].as_array().unwrap();
     for op in ops {
@@ -260,13 +270,16 @@ fn run(out: &mut Out, sched: &Value) {
                 "quiesce" => {
                     let mut evs = vec![];
                     let mut r = vcommon::rng(vcommon::n(op, "s") as u64);
-                    for _ in 0..200_000 {
+                    for _ in 0..20_000 {
                         let busy = net.busy_links();
                         if busy.is_empty() {
                             break;
                         }
                         let (x, y) = *busy.choose(&mut r).unwrap();
-                        evs.extend(net.deliver(x, y));
+                        match net.deliver(x, y) {
+                            Some(e) => evs.push(e),
+                            None => break,
+                        }
                     }
                     evs
                 }
@@ -283,13 +296,16 @@ fn run(out: &mut Out, sched: &Value) {
                             let snd = net.flush(x);
                             evs.push(json!({"e": "hb", "n": x, "got": got, "snd": snd}));
                         }
-                        for _ in 0..200_000 {
+                        for _ in 0..20_000 {
                             let busy = net.busy_links();
                             if busy.is_empty() {
                                 break;
                             }
                             let (x, y) = *busy.choose(&mut r).unwrap();
-                            evs.extend(net.deliver(x, y));
+                            match net.deliver(x, y) {
+                                Some(e) => evs.push(e),
+                                None => break,
+                            }
                         }
                         let churn = evs[before..].iter().any(|e| e.get("gr").and_then(|x| x.as_u64()).unwrap_or(0) + e.get("pr").and_then(|x| x.as_u64()).unwrap_or(0) > 0);
                         if !churn {
@@ -314,13 +330,16 @@ fn run(out: &mut Out, sched: &Value) {
                             let snd = net.flush(x);
                             evs.push(json!({"e": "hb", "n": x, "got": got, "snd": snd}));
                         }
-                        for _ in 0..200_000 {
+                        for _ in 0..20_000 {
                             let busy = net.busy_links();
                             if busy.is_empty() {
                                 break;
                             }
                             let (x, y) = *busy.choose(&mut r).unwrap();
-                            evs.extend(net.deliver(x, y));
+                            match net.deliver(x, y) {
+                                Some(e) => evs.push(e),
+                                None => break,
+                            }
                         }
                         quiet = net.busy_links().is_empty();
                     }
@@ -334,6 +353,11 @@ fn run(out: &mut Out, sched: &Value) {
             Ok(evs) => {
                 for e in evs {
                     out.ev(e);
+                }
+                if net.delivered >= MAX_DELIVERIES {
+                    // no specification has an action for this: the run is rejected
+                    out.ev(json!({"e": "overrun", "deliveries": net.delivered}));
+                    break;
                 }
             }
             Err(m) => {
